@@ -64,6 +64,7 @@ type Scn struct {
 	DialTimeoutMs int    `json:"dial_timeout_ms,omitempty"` // PeerConfig.DialTimeout; 0 = the harness default of 5 s
 	Timed         bool   `json:"timed_outage,omitempty"`    // the outage lasts longer than DialTimeout (wall clock) but only part of the budget (attempts)
 	IntervalMs    int    `json:"interval_ms,omitempty"`     // timed outages: PeerConfig.RedialInterval; 0 = not set (the configuration default of 100 ms)
+	IntervalUnset bool   `json:"interval_unset,omitempty"`  // RedialInterval is left unset in the PeerConfig (documented default: 100 ms)
 	HookRefuse    string `json:"hook_refuses,omitempty"`    // the PostDial hook refuses redial attempts (server reachable): all | after-k | first-k | alternating
 	HookK         int    `json:"hook_k,omitempty"`          // k of after-k / first-k (counted over all redial invocations of the scenario)
 	Second        bool   `json:"second_session"`            // afterwards a second session is dialed from the same client peer and must survive one loss
@@ -98,6 +99,11 @@ func (s Scn) sig() string {
 	if s.DialTimeoutMs > 0 {
 		sig += fmt.Sprintf("/dial-timeout=%dms", s.DialTimeoutMs)
 	}
+	if s.IntervalUnset {
+		sig += "/interval-unset"
+	} else if !s.Timed && s.IntervalMs > 0 {
+		sig += fmt.Sprintf("/interval=%dms", s.IntervalMs)
+	}
 	if s.HookRefuse != "" {
 		sig += fmt.Sprintf("/hook-refuses-%s-%d/losses=%d", s.HookRefuse, s.HookK, s.Losses)
 	}
@@ -129,6 +135,7 @@ type logObs struct {
 	mu     sync.Mutex
 	trying int
 	onTry  func(n int)
+	times  []time.Time // when each retry of the scenario was announced (the line follows the interval's sleep)
 }
 
 var obs = &logObs{}
@@ -139,6 +146,9 @@ func (o *logObs) Output(_ int, msg []byte, _ erpc.LoggerLevel) {
 	}
 	o.mu.Lock()
 	o.trying++
+	if len(o.times) < 100000 {
+		o.times = append(o.times, time.Now())
+	}
 	n, f := o.trying, o.onTry
 	o.mu.Unlock()
 	if f != nil {
@@ -150,6 +160,16 @@ func (o *logObs) reset(f func(int)) {
 	o.mu.Lock()
 	o.trying, o.onTry = 0, f
 	o.mu.Unlock()
+}
+func (o *logObs) begin() {
+	o.mu.Lock()
+	o.trying, o.onTry, o.times = 0, nil, nil
+	o.mu.Unlock()
+}
+func (o *logObs) stamps() []time.Time {
+	o.mu.Lock()
+	defer o.mu.Unlock()
+	return append([]time.Time(nil), o.times...)
 }
 func (o *logObs) count() int {
 	o.mu.Lock()
@@ -451,7 +471,7 @@ func (e *env) setup() error {
 	if sc.DelayP > 0 {
 		gates.SetDelay(sc.DelaySeed, sc.DelayP)
 	}
-	obs.reset(nil)
+	obs.begin()
 	e.park = make(chan struct{})
 	e.cliPark = make(chan struct{})
 	// server
@@ -497,8 +517,8 @@ func (e *env) setup() error {
 	if sc.DialTimeoutMs > 0 {
 		cfg.DialTimeout = time.Duration(sc.DialTimeoutMs) * time.Millisecond
 	}
-	if sc.Timed {
-		cfg.RedialInterval = time.Duration(sc.IntervalMs) * time.Millisecond // 0: the configuration's default (100 ms)
+	if sc.Timed || sc.IntervalUnset || sc.IntervalMs > 0 {
+		cfg.RedialInterval = time.Duration(sc.IntervalMs) * time.Millisecond // 0: not set - the documented default of 100 ms applies
 	}
 	e.cli = erpc.NewPeer(cfg, e.hook)
 	envs.Store(e.cli, e)
@@ -1509,6 +1529,51 @@ func statusName(s erpc.Session) string {
 	return fmt.Sprint(v)
 }
 
+// interval is the redial interval in force by the documented configuration rule.
+func (s Scn) interval() time.Duration {
+	if s.Timed || s.IntervalUnset || s.IntervalMs > 0 {
+		if s.IntervalMs <= 0 {
+			return 100 * time.Millisecond // unset: "default 100ms"
+		}
+		return time.Duration(s.IntervalMs) * time.Millisecond
+	}
+	return time.Millisecond
+}
+
+// judgeSpacing: the redial budget is a number of retries RedialInterval apart. The dialer announces
+// every retry right after the interval's sleep, and the rounds of one session are sequential, so two
+// consecutive announcements of the scenario are at least one interval apart (time.Sleep never returns
+// early). Asserted for every consecutive pair as a lower bound with half the interval as slack; a slow machine only makes the spacing larger, so the clock can only
+// err towards "held".
+func (e *env) judgeSpacing() {
+	if e.hook == nil || len(e.all) != 1 || len(e.viols) > 0 {
+		return
+	}
+	ts := obs.stamps()
+	core.Add("retries_announced", int64(len(ts)))
+	if len(ts) < 2 {
+		return
+	}
+	iv := e.sc.interval()
+	if iv >= 10*time.Millisecond {
+		core.Add("spaced_retry_sequences_checked", 1)
+	}
+	minGap, at := ts[1].Sub(ts[0]), 1
+	for i := 2; i < len(ts); i++ {
+		if g := ts[i].Sub(ts[i-1]); g < minGap {
+			minGap, at = g, i
+		}
+	}
+	if minGap < iv/2 {
+		unset := ""
+		if e.sc.IntervalUnset || (e.sc.Timed && e.sc.IntervalMs == 0) {
+			unset = " (RedialInterval not set: documented default)"
+		}
+		e.violate("redial-interval-not-honoured", "the dialer announced retry %d only %v after retry %d (%d retries announced in %v); with a redial interval of %v%s every retry follows the previous one by at least one interval (asserted: half of it, %v); RedialTimes=%d; close notified: %v, status=%s",
+			at+1, minGap, at, len(ts), ts[len(ts)-1].Sub(ts[0]), iv, unset, iv/2, e.sc.Budget, closeNotified(e.sess), statusName(e.sess))
+	}
+}
+
 // judgeHooks applies clause 3: every successful redial ran the redial hook exactly once.
 func (e *env) judgeHooks() {
 	recs, m := e.matchHooks()
@@ -1662,6 +1727,7 @@ func runScenario(id string, sc Scn) (dirty bool) {
 		e.inconclusive("setup: %v", err)
 	} else {
 		e.run()
+		e.judgeSpacing()
 		if e.incon == "" {
 			e.judgeHooks()
 		}
